@@ -108,13 +108,13 @@ def implicit_norton(algo, eps=1e-14, theta=0.5, A=8e-67, E=8.2, suffix=""):
     name = "VfImplicitNorton_" + algo.replace("NewtonRaphson", "NR").replace("NumericalJacobian", "NJ") \
         .replace("PowellDogLeg", "PDL").replace("LevenbergMarquardt", "LM") + suffix
     an = algo in ANALYTIC_JAC
-    head = ""
+    head, pert = "", ""
     if algo in ("Broyden", "PowellDogLeg_Broyden"):
         head = "@InitJacobian {\n  computeNumericalJacobian(this->jacobian);\n}"
     if algo in ("Broyden", "PowellDogLeg_Broyden", "NewtonRaphson_NumericalJacobian"):
         # the default perturbation is 0.1 x @Epsilon, useless with a tight convergence threshold (the reference
         # numerical-jacobian files set it explicitly as well)
-        head = "@PerturbationValueForNumericalJacobianComputation 1.e-9;\n" + head
+        pert = "@PerturbationValueForNumericalJacobianComputation 1.e-9;"
     if algo == "Broyden2":
         tangent = TANGENT_CLOSED
     else:
@@ -131,7 +131,7 @@ def implicit_norton(algo, eps=1e-14, theta=0.5, A=8e-67, E=8.2, suffix=""):
         tpl = tpl.replace("@@PS_BEGIN@@\n", "").replace("@@PS_END@@\n", "")
         hyps = '".+"'
     t = sub(tpl, HYPS=hyps, NAME=name, ALGO=algo, EPSILON=fl(eps), THETA=fl(theta),
-            A=fl(A), E=fl(E), HEAD=head, JAC=JAC if an else "", JAC_PS=JAC_PS if an else "",
+            A=fl(A), E=fl(E), HEAD=head, PERT=pert, JAC=JAC if an else "", JAC_PS=JAC_PS if an else "",
             JAC_AGPS=JAC_AGPS if an else "", TANGENT=tangent)
     # Broyden / PowellDogLeg_Broyden: the operator built from the quasi-Newton approximation of the jacobian is
     # approximate by construction (observed 1-10% off): not a "consistent tangent" in the sense of C42
